@@ -3,8 +3,9 @@
 
   `Gen.*` (GenPolicy.lean) is regenerated from exit_socket.py on every run, so the first group is re-proved against the
   classifier / policy predicate the code has NOW; `Spec.*` (Model.lean) is the fixed reading of the property text.
-  The second group is about the hand-written state machine of Model.lean (on_data → exit_data → sendto, queue, DNS
-  re-entry, inbound path), which uses `Gen.is_allowed` as its gate; all statements hold for EVERY state, flag set,
+  The second group is about the state machine of Model.lean: the bodies of sendto / datagram_received / exit_data / on_data are
+  the decision trees of GenPaths.lean (regenerated on every run) interpreted by Model.lean; queue flush, DNS re-entry and
+  transport opening are hand-written; `Gen.is_allowed` is the gate; all statements hold for EVERY state, flag set,
   prefix, payload, destination and event history (no bounds).
 -/
 import Ipv8.C06.Lemmas
